@@ -330,6 +330,14 @@ pub fn generate(stream: &str, tier: &str, seed: u64) -> Vec<String> {
     match stream {
         "l1.trie" => crate::gen_trie::gen_trie(&mut rng, thorough, &mut out),
         "l1.store" => gen_store(&mut rng, thorough, &mut out),
+        "l1.c14" => {
+            // histories with every kind of read, verified (C14: the configuration matrix replays this stream)
+            for i in 0..(if thorough { 6 } else { 2 }) {
+                let o = DirOpts { epochs: if thorough { 14 } else { 7 }, users: 6, lookups: true, histories: true, audits: true, dumps: false, tombstones: false, proofs: false, hot_user: i % 2 == 0, audit_adv: false, lookup_adv: false, history_adv: false };
+                dir_case(&mut rng, if i % 2 == 0 { "wv1" } else { "exp" }, &o, &mut out);
+            }
+            crate::gen_trie::gen_perm(&mut rng, thorough, &mut out);
+        }
         "l1.fault" => gen_fault(&mut rng, thorough, &mut out),
         "l1.dir.c01" => {
             for i in 0..ncases {
